@@ -33,6 +33,16 @@ class SyncPool:
     def map(self, f, it):
         return [f(x) for x in it]
 
+    def submit(self, f, *a, **k):
+        from concurrent.futures import Future
+
+        fut = Future()
+        try:
+            fut.set_result(f(*a, **k))
+        except Exception as e:  # what a pool does
+            fut.set_exception(e)
+        return fut
+
     def shutdown(self, *a, **k):
         pass
 
